@@ -644,6 +644,18 @@ func rulesC12(w *World, o *Out) {
 	} else {
 		ug := FindCalls(eb, false, isCallee(vsk, "Keeper", "UpdateGracePeriod"))
 		okU := len(ug) == 1 && ReachAvoiding(eb, nil, SuccessReturns(eb), siteSet(ug)) == nil
+		if ugp := w.MustFunc(o, vsk, "Keeper", "UpdateGracePeriod"); ugp != nil {
+			o.Analysed(w.FuncKey(ugp))
+			sets := map[ssa.Instruction]bool{}
+			for _, m := range w.mutsIn(fl, ugp) {
+				if m.Op == "Set" && m.Has("const:unjailed-validators-snapshot") {
+					sets[m.Site.Instr] = true
+				}
+			}
+			bad := ReachAvoiding(ugp, nil, SuccessReturns(ugp), sets)
+			o.Check("C12.R4", "UpdateGracePeriod|the unjailed set of this block is recorded on every successful run", len(sets) > 0 && bad == nil, w.Pos(ugp.Pos()),
+				"the comparison base for 'newly unjailed' must be rewritten every block; a stale base makes a validator look newly unjailed block after block, so its grace period never ends and it is never jailed for inactivity")
+		}
 		o.Check("C12.R4", "valset.EndBlock|grace-period update on every block", okU, w.Pos(eb.Pos()), "every successful EndBlock must pass UpdateGracePeriod")
 		sw := FindCalls(eb, false, isCallee(vsk, "Keeper", "JailInactiveValidators"))
 		okS := len(sw) == 1
@@ -737,6 +749,29 @@ func rulesC12(w *World, o *Out) {
 			}
 		}
 		o.Count("C12.R4 slashing Jail sites", n, 1)
+		// the jail record that determines the escalation is read and written under one key
+		var getK, setK []ssa.Value
+		for _, s := range CallsDeep(jail) {
+			if len(s.Args()) < 2 {
+				continue
+			}
+			recvT := ""
+			if s.Common().IsInvoke() {
+				recvT = s.Common().Value.Type().String()
+			}
+			if !strings.Contains(recvT, "JailRecord") && !strings.Contains(s.Callee.Recv, "JailRecord") {
+				continue
+			}
+			switch s.Callee.Name {
+			case "Get":
+				getK = append(getK, canon(s.Args()[len(s.Args())-1]))
+			case "Set":
+				setK = append(setK, canon(s.Args()[len(s.Args())-2]))
+			}
+		}
+		same := len(getK) == 1 && len(setK) == 1 && getK[0] == setK[0]
+		o.Check("C12.R4", "Jail|the jail record is read and written under the same key", same, w.Pos(jail.Pos()),
+			"the sentence escalates from the record found for the validator; if the lookup key is not the very value the record is stored under, the record is never found and every sentence restarts at the base duration; lookup keys "+valNames(getK)+" store keys "+valNames(setK))
 	}
 }
 
@@ -930,6 +965,23 @@ func rulesC13(w *World, o *Out) {
 				}
 			}
 			o.Check("C13.R3", "jailValidatorsWhichMissedAttestation|nobody jailed below the 10 % floor", okF, pos, "Jail must be dominated by likelyFaultyMsg == false")
+			// the totals the floor is computed from: every Result VerifyEvidence hands back carries the
+			// totals taken from the snapshot tally (an early return with a fresh Result has non-nil zero
+			// totals, which the zero-value test of the floor does not recognise as "no votes")
+			if ve := w.MustFunc(o, "util/libcons", "ConsensusChecker", "VerifyEvidence"); ve != nil {
+				tf := siteSet(FindCalls(ve, false, func(c Callee) bool { return c.Name == "totalFromConsensus" }))
+				okT := len(tf) > 0
+				for _, r := range Returns(ve) {
+					if len(r.Ret.Results) < 1 || isNilConst(canon(r.Ret.Results[0])) {
+						continue
+					}
+					if ReachAvoiding(ve, nil, map[ssa.Instruction]bool{r.Ret: true}, tf) != nil {
+						okT = false
+					}
+				}
+				o.Check("C13.R3", "VerifyEvidence|every returned result carries the tallied totals", okT, w.Pos(ve.Pos()),
+					"a non-nil Result must have passed totalFromConsensus; the jailing floor reads TotalVotes / TotalShares from it")
+			}
 			okE := false
 			for _, f := range FactsAt(s.Instr) {
 				if f.Kind == FFalse {
@@ -986,4 +1038,12 @@ func mapFilledFrom(fl *Flow, m ssa.Value, callee string) bool {
 		}
 	}
 	return false
+}
+
+func valNames(vs []ssa.Value) string {
+	var out []string
+	for _, v := range vs {
+		out = append(out, v.Name()+"="+v.String())
+	}
+	return "[" + strings.Join(out, "; ") + "]"
 }
